@@ -322,12 +322,28 @@ impl<K, V, A: Allocator> CaoHashMap<K, V, A> {
             let mut i = i; // track the last empty slot
             let mut j = (i + 1) % self.capacity();
             while self.hashes()[j] != 0 {
-                // if the jth item is not in its optimal bucket, then move it back to the empty
-                // slot
-                if (self.hashes()[j] % self.capacity() as u64) != j as u64 {
+                // the jth item may only stay where it is if its home bucket lies (cyclically)
+                // after the empty slot, otherwise lookups would stop at the empty slot before
+                // reaching it: move it back into the empty slot
+                let home = self.home_ind(self.hashes()[j]);
+                let reachable = if i <= j {
+                    i < home && home <= j
+                } else {
+                    i < home || home <= j
+                };
+                if !reachable {
                     self.hashes_mut()[i] = self.hashes()[j];
-                    std::ptr::swap(self.keys.as_ptr().add(i), self.keys.as_ptr().add(j));
-                    std::ptr::swap(self.values.as_ptr().add(i), self.values.as_ptr().add(j));
+                    self.hashes_mut()[j] = 0;
+                    std::ptr::copy_nonoverlapping(
+                        self.keys.as_ptr().add(j),
+                        self.keys.as_ptr().add(i),
+                        1,
+                    );
+                    std::ptr::copy_nonoverlapping(
+                        self.values.as_ptr().add(j),
+                        self.values.as_ptr().add(i),
+                        1,
+                    );
                     i = j;
                 }
                 j = (j + 1) % self.capacity();
@@ -416,9 +432,7 @@ impl<K, V, A: Allocator> CaoHashMap<K, V, A> {
     {
         let len = self.capacity;
 
-        // improve uniformity via fibonacci hashing
-        // in wasm sizeof usize is 4, so multiply our already 32 bit hash
-        let mut ind = (needle.wrapping_mul(2654435769) as usize) % len;
+        let mut ind = self.home_ind(needle);
         let hashes = self.hashes();
         let keys = self.keys.as_ptr();
         loop {
@@ -431,6 +445,13 @@ impl<K, V, A: Allocator> CaoHashMap<K, V, A> {
             }
             ind = (ind + 1) % len;
         }
+    }
+
+    /// The bucket where probing for the given hash starts
+    fn home_ind(&self, hash: u64) -> usize {
+        // improve uniformity via fibonacci hashing
+        // in wasm sizeof usize is 4, so multiply our already 32 bit hash
+        (hash.wrapping_mul(2654435769) as usize) % self.capacity
     }
 
     fn hashes(&self) -> &[u64] {
